@@ -27,7 +27,11 @@ func runC08(c *Ctx) {
 	w := c.W
 	a := w.absint()
 	valid := w.Func("proto", "ChannelNumber", "Valid")
-	isValid := w.Func("proto", "", "isChannelNumberValid")
+	isValid := w.FuncOpt("proto", "", "isChannelNumberValid") // optional: Valid may hold the comparison itself
+	predFn := isValid
+	if predFn == nil {
+		predFn = valid
+	}
 	minCh, maxCh := w.ConstInt("proto", "MinChannelNumber"), w.ConstInt("proto", "MaxChannelNumber")
 
 	// ---- C08.1
@@ -53,37 +57,47 @@ func runC08(c *Ctx) {
 			c.Bad("C08.1", "-", "NewChannelBind number", "-", "the ChannelBind handler no longer creates bindings through NewChannelBind: anchor gone")
 		}
 		c.Anchor("C08.1", "Valid summary")
-		// summary of isChannelNumberValid: true ⇒ min ≤ c ≤ max
+		// summary of Valid (through whatever helper it forwards to): true ⇒ min ≤ n ≤ max
 		lo, hi := int64(-1), int64(-1)
-		for _, r := range returnsOf(isValid) {
-			for _, f := range normCond(w.resolveLoad(r.Results[0]), true) {
+		first := true
+		for _, r := range returnsOf(valid) {
+			rv := w.resolveLoad(r.Results[0])
+			if cst, isC := rv.(*ssa.Const); isC && cst.Value != nil && cst.Value.String() == "false" {
+				continue
+			}
+			rlo, rhi := int64(-1), int64(-1)
+			facts := append(w.factsAt(r), normCond(rv, true)...)
+			for _, f := range w.importFacts(facts) {
 				if f.Op != "<" || f.Truth {
 					continue
 				}
-				// !(c < K)  => c >= K ;  !(K < c) => c <= K
-				if w.sameKey(f.X, isValid.Params[0]) {
-					if k, ok := constInt(f.Y); ok {
-						lo = k
+				// !(n < K)  => n >= K ;  !(K < n) => n <= K
+				if w.sameKey(stripIntConv(f.X), valid.Params[0]) {
+					if k, ok := constInt(f.Y); ok && k > rlo {
+						rlo = k
 					}
 				}
-				if w.sameKey(f.Y, isValid.Params[0]) {
-					if k, ok := constInt(f.X); ok {
-						hi = k
+				if w.sameKey(stripIntConv(f.Y), valid.Params[0]) {
+					if k, ok := constInt(f.X); ok && (rhi < 0 || k < rhi) {
+						rhi = k
 					}
+				}
+			}
+			if first {
+				lo, hi, first = rlo, rhi, false
+			} else {
+				if rlo < lo {
+					lo = rlo
+				}
+				if rhi < 0 || hi >= 0 && rhi > hi {
+					hi = rhi
 				}
 			}
 		}
-		// Valid forwards to it
-		fwd := false
-		w.eachInstr(valid, func(in ssa.Instruction) {
-			if call, ok := in.(*ssa.Call); ok && call.Call.StaticCallee() == isValid {
-				fwd = true
-			}
-		})
-		if lo == minCh && hi == maxCh && minCh == 0x4000 && maxCh == 0x7FFF && fwd {
-			c.OK("C08.1", fname(isValid), "range predicate", w.pos(isValid.Pos()), "true ⇔ 0x4000 ≤ c ≤ 0x7FFF; Valid() forwards to it")
+		if lo == minCh && hi == maxCh && minCh == 0x4000 && maxCh == 0x7FFF {
+			c.OK("C08.1", fname(predFn), "range predicate", w.pos(predFn.Pos()), "Valid() == true ⇒ 0x4000 ≤ n ≤ 0x7FFF")
 		} else {
-			c.Bad("C08.1", fname(isValid), "range predicate", w.pos(isValid.Pos()), fmt.Sprintf("the range predicate accepts [%#x,%#x] (constants Min=%#x Max=%#x, Valid forwards=%v), expected [0x4000,0x7fff]", lo, hi, minCh, maxCh, fwd))
+			c.Bad("C08.1", fname(predFn), "range predicate", w.pos(predFn.Pos()), fmt.Sprintf("the range predicate accepts [%#x,%#x] (constants Min=%#x Max=%#x), expected [0x4000,0x7fff]", lo, hi, minCh, maxCh))
 		}
 	}
 
@@ -334,12 +348,16 @@ func runC08(c *Ctx) {
 		users := []*ssa.Function{w.Func("proto", "", "IsChannelData"), w.Func("proto", "ChannelData", "Decode"), w.Func("proto", "", "consumeSingleTURNFrame"), valid}
 		for _, u := range users {
 			c.Anchor("C08.5", fname(u))
+			if u == predFn {
+				c.OK("C08.5", fname(u), "range test", w.pos(u.Pos()), "is the shared range predicate itself")
+				continue
+			}
 			reached := false
 			var visit func(fn *ssa.Function, d int)
 			visit = func(fn *ssa.Function, d int) {
 				w.eachInstr(fn, func(in ssa.Instruction) {
 					if cal := staticCallee(in); cal != nil {
-						if cal == isValid {
+						if cal == predFn || cal == valid {
 							reached = true
 						} else if w.IsMod[cal] && d < 2 {
 							visit(cal, d+1)
